@@ -7,7 +7,12 @@
 //     maxq suffix = how the processor is built: none = (exporter, options) constructor, r = (exporter, options, runtime
 //       options) constructor, f / g = the factory's Create with two / three arguments, a = (logs only) the constructor
 //       taking the three numbers.  They must all configure the same processor.
-//     flushers: one char per ForceFlush caller: 'i' = indefinite timeout (max), digit k = timeout of k * schedule_delay
+//     flushers: one char per ForceFlush caller: 'i' = indefinite timeout (max), digit k = timeout of k * schedule_delay,
+//       'h' = half a schedule_delay (the wait is clipped to the caller's timeout), 'u' = one microsecond
+//     nshut: number of Shutdown callers, optionally followed by how they call it: none = Shutdown() (max), 't' = a finite
+//       timeout (3 * schedule_delay), 'z' = zero, 'u' = one microsecond
+//     records with an odd id are obtained through Processor::MakeRecordable() (and, for spans, announced with OnStart)
+//       instead of being built by the caller: both are pass-throughs that must not change anything
 //     exporter script: chars 's' (Export succeeds) / 'f' (Export reports failure), cycled; 'F' = ForceFlush fails; 'S' = Shutdown fails
 //     actions: t<i> run thread i | t<i>! run with a spurious weak-CAS failure | o<i> timer of thread i's timed wait expires
 //              | w<i> spurious wake-up of thread i's wait
@@ -158,7 +163,12 @@ static std::string handle(const std::vector<std::string> &t)
     return !s.empty() && *e == 0;
   };
   unsigned long maxq, maxb, nprod, adds, nshut;
-  char ctor = 0;
+  char ctor = 0, shut_to = 0;
+  if (!ops[0][5].empty() && (ops[0][5].back() == 't' || ops[0][5].back() == 'z' || ops[0][5].back() == 'u'))
+  {
+    shut_to = ops[0][5].back();
+    ops[0][5].pop_back();
+  }
   if (!ops[0][0].empty() && !(ops[0][0].back() >= '0' && ops[0][0].back() <= '9'))
   {
     ctor = ops[0][0].back();
@@ -170,7 +180,7 @@ static std::string handle(const std::vector<std::string> &t)
   std::string fl = ops[0][4] == "-" ? "" : ops[0][4];
   std::string xs = ops[0][6] == "-" ? "" : ops[0][6];
   for (char c : fl)
-    if (c != 'i' && !(c >= '0' && c <= '9')) return "bad-op";
+    if (c != 'i' && c != 'h' && c != 'u' && !(c >= '0' && c <= '9')) return "bad-op";
   if (maxq == 0 || maxb == 0 || maxb > maxq || nprod > 6 || fl.size() > 4 || nshut > 3) return "bad-op";
   ExpState est;
   for (char c : xs)
@@ -256,7 +266,18 @@ static std::string handle(const std::vector<std::string> &t)
       {
         detsched::point("begin", nullptr);
         int id = next_id++;
-        std::unique_ptr<sdkx::Recordable> r(new Rec(id));
+        std::unique_ptr<sdkx::Recordable> r;
+        if (id % 2)
+        {
+          r = proc->MakeRecordable();  // the exporter's recordable, handed through by the processor
+          if (!r) { detsched::note("MAKERECORDABLE-NULL"); r.reset(new Rec(id)); }
+          static_cast<Rec *>(r.get())->id = id;
+#ifndef BATCH_LOGS
+          proc->OnStart(*r, opentelemetry::trace::SpanContext::GetInvalid());
+#endif
+        }
+        else
+          r.reset(new Rec(id));
         detsched::name_value(reinterpret_cast<uint64_t>(r.get()), "r" + std::to_string(id));
         detsched::note("onend-begin r" + std::to_string(id));
         proc->ONEND(std::move(r));
@@ -270,8 +291,10 @@ static std::string handle(const std::vector<std::string> &t)
     detsched::spawn([&, c] {
       detsched::point("begin", nullptr);
       detsched::note("flush-begin");
-      auto to = c == 'i' ? (std::chrono::microseconds::max)()
-                         : std::chrono::duration_cast<std::chrono::microseconds>(delay * (c - '0'));
+      auto to = c == 'i'   ? (std::chrono::microseconds::max)()
+                : c == 'h' ? std::chrono::duration_cast<std::chrono::microseconds>(delay) / 2
+                : c == 'u' ? std::chrono::microseconds(1)
+                           : std::chrono::duration_cast<std::chrono::microseconds>(delay * (c - '0'));
       bool r  = proc->ForceFlush(to);
       detsched::note(std::string("flush-ret ") + (r ? "1" : "0"));
     });
@@ -281,7 +304,10 @@ static std::string handle(const std::vector<std::string> &t)
     detsched::spawn([&] {
       detsched::point("begin", nullptr);
       detsched::note("shutdown-begin");
-      bool r = proc->Shutdown();
+      bool r = shut_to == 0     ? proc->Shutdown()
+               : shut_to == 't' ? proc->Shutdown(std::chrono::duration_cast<std::chrono::microseconds>(delay * 3))
+               : shut_to == 'z' ? proc->Shutdown(std::chrono::microseconds::zero())
+                                : proc->Shutdown(std::chrono::microseconds(1));
       detsched::note(std::string("shutdown-ret ") + (r ? "1" : "0"));
     });
   }
